@@ -3,6 +3,7 @@ mod tbl;
 mod cfg;
 mod crash;
 mod fifo;
+mod flip;
 // throw-away design-time campaign: real tree vs versioned oracle (snapshots, clear, drop_range, ingest, weak deletes, audit)
 use lsm_tree::{AbstractTree, AnyTree, Config, Guard, KvSeparationOptions, SeqNo, SequenceNumberCounter, config::BlockSizePolicy};
 use std::collections::{BTreeMap, BTreeSet};
@@ -156,6 +157,7 @@ fn main() {
     if std::env::args().nth(1).as_deref() == Some("cfg") { cfg::main(); return; }
     if std::env::args().nth(1).as_deref() == Some("crash") { crash::main(); return; }
     if std::env::args().nth(1).as_deref() == Some("fifo") { fifo::main(); return; }
+    if std::env::args().nth(1).as_deref() == Some("flip") { flip::main(); return; }
     let seed0: u64 = std::env::args().nth(1).map(|s| s.parse().unwrap()).unwrap_or(1);
     let cases: u64 = std::env::args().nth(2).map(|s| s.parse().unwrap()).unwrap_or(100);
     let feats: String = std::env::args().nth(3).unwrap_or_else(|| "snap,clear,droprange,ingest,weak,blob,movedown,filter".into());
